@@ -30,6 +30,8 @@ pub enum Shape {
     DateTimeVar(DateLit, TimeLit, bool),
     /// x = D at T Z ; x as unix     (the time carries an explicit zone)
     DateTimeZoneVar(DateLit, TimeLit, Zone),
+    /// d = D ; d at T as unix ; e = d at T ; e as unix   (the one-line form and the two-step form agree)
+    DateNameAtTime(DateLit, TimeLit),
     /// N to date as unix (one line)
     InverseLine(i64),
     /// x = N to [date|Z] ; x as unix
@@ -134,6 +136,29 @@ pub fn case_lines(c: &Case) -> Vec<Line> {
             l2.push(Tok::word("as", Class::Conn));
             l2.push(kw("unix"));
             vec![l, l2]
+        }
+        Shape::DateNameAtTime(d, t) => {
+            let mut def = Line::default();
+            def.push(Tok::word("d", Class::Var));
+            def.push(Tok::op('='));
+            push(&mut def, d.toks("en"));
+            let mut one = Line::default();
+            one.push(Tok::word("d", Class::Var));
+            one.push(Tok::word("at", Class::Conn));
+            one.push(t.tok());
+            one.push(Tok::word("as", Class::Conn));
+            one.push(kw("unix"));
+            let mut two = Line::default();
+            two.push(Tok::word("e", Class::Var));
+            two.push(Tok::op('='));
+            two.push(Tok::word("d", Class::Var));
+            two.push(Tok::word("at", Class::Conn));
+            two.push(t.tok());
+            let mut last = Line::default();
+            last.push(Tok::word("e", Class::Var));
+            last.push(Tok::word("as", Class::Conn));
+            last.push(kw("unix"));
+            vec![def, one, two, last]
         }
         Shape::InverseLine(n) => {
             l.push(ts_tok(*n));
@@ -402,6 +427,23 @@ impl Prop for Unix {
                     other => acc.fail(format!("expected a DateTime got {}", other.brief())),
                 }
             }
+            Shape::DateNameAtTime(d, t) => {
+                kind = "date-name-at-time-as-unix-on-one-line";
+                let _ = (d, t);
+                match (&out.slots[1], &last) {
+                    (Slot::Ok { v: V::Num(a, NT::Raw), .. }, Slot::Ok { v: V::Num(b, NT::Raw), .. }) => {
+                        n_for_class = Some(*b as i64);
+                        if a != b {
+                            acc.fail(format!("'d at T as unix' on one line gives {}, but 'e = d at T' / 'e as unix' gives {}", a, b));
+                        }
+                    }
+                    (x, y) => {
+                        if !x.same(y) {
+                            acc.fail(format!("'d at T as unix' on one line gives {}, but 'e = d at T' / 'e as unix' gives {}", x.brief(), y.brief()));
+                        }
+                    }
+                }
+            }
             Shape::InverseLine(n) => {
                 kind = "inverse";
                 n_for_class = Some(*n);
@@ -481,6 +523,7 @@ pub fn case_strategy() -> impl Strategy<Value = Case> {
             Shape::DateTimeVar(d, TimeLit { form: t.form % 2, s: None, ..t }, h)
         }),
         2 => (date_strategy(), crate::c11::time_strategy(), zone_strategy()).prop_map(|(d, t, z)| Shape::DateTimeZoneVar(d, TimeLit { form: t.form % 2, s: None, ..t }, z)),
+        1 => (date_strategy(), crate::c11::time_strategy()).prop_map(|(d, t)| Shape::DateNameAtTime(d, TimeLit { form: t.form % 2, s: None, ..t })),
         2 => ts_strategy().prop_map(Shape::InverseLine),
         2 => (ts_strategy(), prop::option::of(zone_strategy())).prop_map(|(n, z)| Shape::InverseVar(n, z)),
         2 => date_strategy().prop_map(Shape::DateRoundTrip),
@@ -520,7 +563,7 @@ pub fn table() -> Vec<Case> {
 
 pub fn run(ctx: &Ctx) {
     crate::calendar::self_test();
-    ctx.rule("timestamps of years 1..9999 (0, +-1, +-86400, 2^31-1, 2^31, 2^32, year ends, negative, random) as 'N [to] date' and 'N [to] Z'; dates in every C09 spelling 'as|to|into|in unix|unixtime|unixtimestamp' (also without connective); times [with zone] as unix; date-times bound to a variable ('x = D at T', 'x = D at H') as unix; inverse forms 'N to date as unix', 'x = N to date; x as unix', 'D as unix to date'; default zone from a pool, explicit zones from the table and GMT forms; one case in sixteen with a default zone is repeated on a calculator that saw a REJECTED set_timezone call afterwards (same results); date-times whose time carries an explicit zone ('x = D at T Z', x as unix): the instant is that wall clock at that offset on day D (asserted when its UTC clock stays on D) and is the same under every default zone; oracle: independent civil-from-days arithmetic: AST instant = N and zone = default/requested, printed fields = instant shifted by the zone offset, D as unix = 86400*days(D) whatever the configured zone, time as unix = instant of the operand evaluated alone, inverses return N exactly, printed timestamp = every digit of N; non-trivial = |N| > 86400 and (zone offset != 0 or N < 0 or N >= 2^31)");
+    ctx.rule("timestamps of years 1..9999 (0, +-1, +-86400, 2^31-1, 2^31, 2^32, year ends, negative, random) as 'N [to] date' and 'N [to] Z'; dates in every C09 spelling 'as|to|into|in unix|unixtime|unixtimestamp' (also without connective); times [with zone] as unix; date-times bound to a variable ('x = D at T', 'x = D at H') as unix, and the one-line form 'd at T as unix' with the date held in a name (= the two-step form); inverse forms 'N to date as unix', 'x = N to date; x as unix', 'D as unix to date'; default zone from a pool, explicit zones from the table and GMT forms; one case in sixteen with a default zone is repeated on a calculator that saw a REJECTED set_timezone call afterwards (same results); date-times whose time carries an explicit zone ('x = D at T Z', x as unix): the instant is that wall clock at that offset on day D (asserted when its UTC clock stays on D) and is the same under every default zone; oracle: independent civil-from-days arithmetic: AST instant = N and zone = default/requested, printed fields = instant shifted by the zone offset, D as unix = 86400*days(D) whatever the configured zone, time as unix = instant of the operand evaluated alone, inverses return N exactly, printed timestamp = every digit of N; non-trivial = |N| > 86400 and (zone offset != 0 or N < 0 or N >= 2^31)");
     ctx.assume("'in' is not written directly after a number (it would read as the unit inch); N outside years 1..9999 belongs to C01");
     ctx.run_table(&Unix, "boundary-table", table(), true);
     ctx.run_generated(&Unix, ctx.tier.pick(80_000, 800_000), case_strategy);
